@@ -70,7 +70,9 @@ def check_c07(case, stats=None):
                 obs = dict(r.ctx)
                 # model vs observation
                 if obs.get("ctx") in ("0", "1"):
-                    live = [m for m, l in st.items() if l != "Z"]
+                    # a module whose deregistration is in progress (open call on it) already left the context
+                    going = set(x.fields.get("slots", [None])[0] for x in calls if x.op == "dereg")
+                    live = [m for m, l in st.items() if l != "Z" and m not in going]
                     if exists and obs["ctx"] == "0":
                         tearing = any(x.op == "ctx_deregister" for x in calls) or any(c_.fields.get("_judge") == "deregistered" for c_ in pend)
                         if (not persistent and not live and obs.get("loop") != "1") or tearing:
